@@ -71,6 +71,9 @@ PROPS = {
         title='subscriptions() returns every applicable subscriber, with multiplicity, in order',
         contracts=['C04_lookup', 'C09_registry', 'C04_extendors'], falsifier='C07', modes=['py', 'c'], level='other',
         cfun=['C05_c'], cfun_only={'C05_c': ['_subcache', '_subscriptions']},
+        level_text_extra=' The C _subscriptions (and _subcache) is verified from the clang AST against the cache contract of the Python twin: a cached answer is '
+                         'returned without searching, otherwise the answer of the uncached search is returned and stored in the subscriptions cache of that '
+                         'provided interface -- and in no other cache (contracts/C05_c.py).',
         only={'C04_lookup': ['adapter.py:_subscriptions'],
               'C04_extendors': ['adapter.py:AdapterLookupBase.add_extendor', 'adapter.py:AdapterLookupBase.remove_extendor'],
               'C09_registry': ['adapter.py:BaseAdapterRegistry.subscribe', 'adapter.py:BaseAdapterRegistry.unsubscribe',
@@ -88,6 +91,10 @@ PROPS = {
         contracts=['C04_lookup', 'C05_cache', 'C08_entry'], falsifier='C08', modes=['py', 'c'], level='other',
         cfun=['C05_c', 'C06_c'], cfun_only={'C05_c': ['_lookup', '_lookup1', '_adapter_hook', '_lookupAll', '_subscriptions'],
                                             'C06_c': ['VB_lookup', 'VB_lookup1', 'VB_adapter_hook', 'VB_queryAdapter', 'VB_lookupAll', 'VB_subscriptions']},
+        level_text_extra=' The C twins _lookup, _lookup1, _adapter_hook, _lookupAll, _subscriptions are verified from the clang AST against the SAME postconditions '
+                         '(NULL name = empty name, NULL default = None, ValueError for a non-str name before anything is touched, _lookup1 = _lookup of the '
+                         '1-tuple, the hook calls the factory found for providedBy(object) with the object underlying a super proxy), and the six VB_* entry '
+                         'points are verified to consult the cache layer only after the generation snapshot was verified.',
         only={'C04_lookup': ['adapter.py:_lookupAll']},
         level_text='Verified from the real bodies (Python reference): _lookupAll against the recursive override specification; '
                    'LookupBase.lookup returns the cached value or what the uncached search answers, None meaning the default by identity, '
@@ -144,17 +151,31 @@ PROPS = {
                    'verified to keep the invariant "every cache entry equals what the uncached search answers in the current state '
                    '(ghost epoch)" -- also when the call-out to the uncached search re-enters and invalidates: the node fetched before '
                    'the call-out is then an orphan and the stale answer never reaches the rebuilt tree. That the epoch advances on every '
-                   'relevant mutation is the invalidation chain above. The end-to-end statement is checked bounded: mutations completing '
+                   'relevant mutation is the invalidation chain above. The C twins are verified from the clang AST of the real file by the '
+                   'functional C front end against the SAME invariant and the SAME top-level postconditions (contracts/C05_c.py: _subcache, '
+                   '_getcache, _lookup, _lookup1, _adapter_hook, _lookupAll, _subscriptions, LB_changed -- lazily created top dictionaries, '
+                   'NULL name/default, every allocation and dictionary store may fail and the invariant still holds on those exits), and the '
+                   'verifying flavour (contracts/C06_c.py: _generations_tuple with its loop invariant, _verify, verify_changed and the six '
+                   'VB_* entry points: the generation snapshot is verified before the cache layer is consulted). The Python entry points are '
+                   'additionally verified to reach the caches only through the virtual _getcache (which VerifyingBase overrides). '
+                   'The end-to-end statement is checked bounded: the first entry point called after every kind of mutation at every chain member (1404-point product), mutations completing '
                    'while a lookup is in flight, and random interleavings (<= 9 steps) of all entry points with every mutation kind, '
                    'compared with cold registries, both implementations.',
-        level_note='the uncached searches as seen by the cache layer and VerifyingBase (generation snapshot) are assumed contracts; the C '
-                   'twins are covered by the St/U/L obligations and bounded differential runs.',
-        explanation='invalidation edges proved; cache-filling and end-to-end transparency bounded',
+        level_note='the uncached searches as seen by the cache layer are assumed contracts (verified under C04/C07/C08); a re-entrant lookup '
+                   'that only fills caches during a call-out is not modelled (without an invalidation the call-out leaves the tree as it is); '
+                   'C side: CPython API models of contracts/C05_c.py and contracts/C06_c.py are trusted, reference counting is the subject of '
+                   'the ownership obligations; the end-to-end statement over histories is bounded.',
+        explanation='invalidation edges and the cache-filling functions of BOTH implementations proved against one cache-soundness invariant; end-to-end transparency over histories bounded',
     ),
     'C06': dict(
         title='Registries consult exactly their current base chain, in resolution order',
         contracts=['C04_lookup', 'C09_registry', 'C06_verifying'], falsifier='C06', modes=['py', 'c'], level='other',
         cfun=['C06_c'],
+        level_text_extra=' The C twin of the verifying flavour is verified from the clang AST (contracts/C06_c.py): _generations_tuple (loop invariant: the new tuple '
+                         'holds the generation counters of the first i registries), _verify (a current snapshot means nothing happens, a stale or missing one '
+                         'empties the caches and is re-taken, failure is reported), verify_changed (snapshot = tuple(registry.ro)[1:], generations recorded '
+                         'for exactly that order, a failed invalidation leaves no snapshot) and the six VB_* entry points (verification precedes every '
+                         'use of the cache layer).',
         only={'C04_lookup': ['adapter.py:AdapterLookupBase._uncached_lookup'],
               'C09_registry': ['adapter.py:BaseAdapterRegistry.changed', 'adapter.py:AdapterRegistry.changed',
                                'adapter.py:BaseAdapterRegistry._setBases', 'adapter.py:AdapterRegistry._setBases',
@@ -345,10 +366,13 @@ PROPS = {
                    'the bounded checks of C01-C09, C12-C14, C19 run under both implementations against one executable contract each. '
                    'Twin pairs verified against ONE functional contract (C side from the clang AST by the functional C front end, Python '
                    'side from the ast): IB_richcompare / _compare+__lt__..__ge__+__eq__+__ne__ and IB__hash__ / __hash__ (key order, C12), '
-                   'IB__adapt__ / __adapt__ (hook decision list, C14); more pairs are listed in the evidence as they are added. '
+                   'IB__adapt__ / __adapt__ (hook decision list, C14), _getcache/_lookup/_lookup1/_adapter_hook/_lookupAll/_subscriptions/LB_changed and their '
+                   'LookupBase twins (cache-soundness invariant and result clauses, C05/C08), _verify/verify_changed/VB_* and the VerifyingBase '
+                   'twins (generation snapshot, C06); more pairs are listed in the evidence as they are added. '
                    'The ownership obligations of the C functions (see C11) are discharged as part of this check.',
-        level_note='equivalence itself is bounded (fixed programs and argument pool); twin pairs are not yet verified against one '
-                   'functional contract by the C front end.',
+        level_note='equivalence of the twins that are not listed as verified pairs is bounded (fixed programs and argument pool): SB_extends, '
+                   'SB_providedBy, SB_implementedBy, implementedBy, providedBy, getObjectSpecification, the descriptors, IB__call__; the CPython API '
+                   'models of the C contract modules are trusted.',
         explanation='differential execution of generated programs under both implementations; ownership obligations of the C twins discharged',
         not_decided=['programs reaching C-only behaviour through user subclasses overriding the hooks', 'pre-3.11 static-type branch of the C file, PyPy'],
     ),
